@@ -69,7 +69,7 @@ def oracle(case):
         Sx = tol.seg_scale(x, D, L, w, cfg["order"])
         Sy = tol.seg_scale(y, D, L, w, cfg["order"])
         bx[j], by[j] = tol.budget2(L, om, Sx) * k, tol.budget2(L, om, Sy) * k
-        bxy[j] = tol.budget2(L, om, (Sx * Sy) ** 0.5) * k
+        bxy[j] = tol.budget2(L, om, (Sx ** 0.5 * Sy ** 0.5)) * k
         powered[j] = Gxx[j] > 1e3 * bx[j] and Gyy[j] > 1e3 * by[j]
 
     def first(mask):
